@@ -26,5 +26,9 @@ def run_shard(cfg):
     return gencheck.run_shard(cfg, ID)
 
 
+def shrink_candidates(case):
+    return gencheck.shrink_candidates(case)
+
+
 def replay(case, rec):
     return gencheck.replay(case, ID)
